@@ -299,7 +299,10 @@ def run(ctx):
             elif m_: m_[min(j, len(m_) - 1)] = rng.choice(allsym)
         if m_:
             strings.append(m_)
-    strings = [t for t in strings if not any(t[j] == "AmpersandAmpersandToken" and (j == 0 or t[j - 1] not in ("a", "CloseParenToken", "CloseBracketToken", "PlusPlusToken", "MinusMinusToken")) for j in range(len(t)))]
+    # `&&` as a PREFIX operator (GNU label address) takes a label identifier since the parser was repaired (it took any cast-expression); an operand
+    # of the model is rendered as a constant, so `&&` is kept only where it is certainly the binary operator: directly after an operand or `]`
+    # (after `)` it may follow a cast, after `++` / `--` a prefix operator)
+    strings = [t for t in strings if not any(t[j] == "AmpersandAmpersandToken" and (j == 0 or t[j - 1] not in ("a", "CloseBracketToken")) for j in range(len(t)))]
     # a type name is ONE token of the model (`T`), modelled where it stands between parentheses: `( int int )`, `( int * )`, `int + 1` are outside the model
     strings = [t for t in strings if not any(t[j] == 'T' and not (0 < j < len(t) - 1 and t[j - 1] == 'OpenParenToken' and t[j + 1] == 'CloseParenToken') for j in range(len(t)))]
     texts_b = [render(t) for t in strings]
